@@ -5,6 +5,7 @@ types : ["uint",k] ["bool"] ["bitvec",n] ["bitlist",n] ["bytevec",n] ["bytelist"
 values: int | bool | "0101" (bits) | "hex" (bytes) | [..] (seq / container fields) | [sel, value-or-None] (union)
 """
 from lib import *  # noqa
+import hashlib
 from remerkleable.basic import boolean, uint8, uint16, uint32, uint64, uint128, uint256
 from remerkleable.complex import Container, Vector, List
 from remerkleable.bitfields import Bitvector, Bitlist
@@ -41,7 +42,28 @@ def T(t):
     elif k == "cont":
         _cnt[0] += 1
         ann = {"f%d" % i: T(ft) for i, ft in enumerate(t[1])}
-        r = type("C%d" % _cnt[0], (Container,), {"__annotations__": ann})
+        nf = len(ann)
+        split = int(hashlib.sha256(key.encode()).hexdigest(), 16) % 3 == 0 and nf >= 2
+        if split:
+            # the same container type defined by INHERITANCE: a base class with the first fields (used first, so that
+            # anything it caches on the class exists before the subclass is looked at), a subclass adding the rest
+            k0 = 1 + int(hashlib.sha256(key.encode()).hexdigest()[:4], 16) % (nf - 1)
+            items = list(ann.items())
+            base = type("B%d" % _cnt[0], (Container,), {"__annotations__": dict(items[:k0])})
+            for warm in ("fields", "is_fixed_byte_length", "min_byte_length", "max_byte_length", "tree_depth",
+                         "default_node", "type_byte_length", "type_repr"):
+                try:
+                    getattr(base, warm)()
+                except Exception:
+                    pass
+            try:
+                base().encode_bytes()
+                base().hash_tree_root()
+            except Exception:
+                pass
+            r = type("C%d" % _cnt[0], (base,), {"__annotations__": dict(items[k0:])})
+        else:
+            r = type("C%d" % _cnt[0], (Container,), {"__annotations__": ann})
     elif k == "union":
         opts = ([None] if t[1] else []) + [T(o) for o in t[2]]
         r = Union.__class_getitem__(tuple(opts))
